@@ -15,6 +15,7 @@ import Dassh.Model.Regions
 import Dassh.Model.HotspotSort
 import Dassh.Model.FlowSplit
 import Dassh.Model.AcceptRegions
+import Dassh.Model.PowerRows
 
 open Dassh.Model
 
@@ -155,6 +156,26 @@ def handle (line : String) : String :=
        | .ok () => let b := AcceptRegions.roddedBnds len regs; "ok " ++ showFloats [b.1, b.2]
        | .error e => "err " ++ (match e with
           | .nonPositiveHeight => "height" | .overlap => "overlap" | .multipleRodded => "multiple" | .noRodded => "norods"))
+    | _, _ => "bad-op"
+  | "prows" :: rest =>
+    -- prows nItems nTerms | zlo idx c_1 .. c_nTerms  zlo idx c_1 ..   (PowerRows.table; rows in file order)
+    let (hd, body) := splitBar rest
+    match natList hd, natList body with
+    | some [nItems, nTerms], some toks =>
+      let rec rowsOf (fuel : Nat) (ts : List Nat) : Option (List (PowerRows.Row Float)) :=
+        match fuel, ts with
+        | _, [] => some []
+        | 0, _ => none
+        | fuel + 1, z :: i :: t =>
+          if t.length < nTerms then none
+          else (rowsOf fuel (t.drop nTerms)).map
+            ({ zlo := Float.ofBits z.toUInt64, idx := i, coeffs := (t.take nTerms).map fun n => Float.ofBits n.toUInt64 } :: ·)
+        | _, _ => none
+      (match rowsOf toks.length toks with
+       | some rows =>
+         "ok " ++ " | ".intercalate ((PowerRows.table nItems rows).map fun cell =>
+           " ; ".intercalate (cell.map showFloats))
+       | none => "bad-op")
     | _, _ => "bad-op"
   | "clamp" :: rest =>
     -- clamp m | lims...   (Orifice.clampGroup)
